@@ -5,7 +5,6 @@ package main
 
 import (
 	"fmt"
-	"net"
 	"sort"
 	"strconv"
 	"strings"
@@ -46,10 +45,11 @@ func (noStatic) ReadData() ([]byte, error) { return nil, policysets.ErrNoRuleSpe
 // ---------------------------------------------------------------------------------------------
 
 type state struct {
-	ps    *policysets.PolicySets
-	cache *ipCache
-	pols  map[string]*proto.Policy // what was added (for the reference semantics)
-	supp  map[string]bool          // policy uses supported criteria only
+	ps      *policysets.PolicySets
+	cache   *ipCache
+	pols    map[string]*proto.Policy // what was added (for the reference semantics)
+	supp    map[string]bool          // policy uses supported criteria only
+	svcPlus map[string]bool          // ... except egress Service rules that also carry a protocol / source ports
 }
 
 func splitL(sep, s string) []string {
@@ -64,8 +64,16 @@ func dotted(n uint32) string {
 }
 
 func parseDotted(s string) uint32 {
-	ip := net.ParseIP(s).To4()
-	return uint32(ip[0])<<24 | uint32(ip[1])<<16 | uint32(ip[2])<<8 | uint32(ip[3])
+	var n, cur uint32
+	for i := 0; i < len(s); i++ {
+		if s[i] == '.' {
+			n = n<<8 | cur
+			cur = 0
+		} else {
+			cur = cur*10 + uint32(s[i]-'0')
+		}
+	}
+	return n<<8 | cur
 }
 
 func expandMembers(s string) []string {
@@ -419,6 +427,125 @@ func supported(r *proto.Rule, inbound bool) bool {
 	return true
 }
 
+// svcWithProto: an egress rule on a destination Service (one IP-port set) that ALSO carries a
+// protocol and/or source ports - valid in the v3 API (only destination ports/nets/selectors are
+// forbidden next to services), and made of criteria the Windows dataplane supports.
+func svcWithProto(r *proto.Rule, inbound bool) bool {
+	if inbound || len(r.DstIpPortSetIds) != 1 || (r.Protocol == nil && len(r.SrcPorts) == 0) {
+		return false
+	}
+	c := googleClone(r)
+	c.Protocol = nil
+	c.SrcPorts = nil
+	return supported(c, inbound) && supported(&proto.Rule{Action: r.Action, Protocol: r.Protocol}, inbound)
+}
+
+func googleClone(r *proto.Rule) *proto.Rule {
+	c := *r //nolint:govet // shallow copy of the fields the harness looks at is enough
+	return &c
+}
+
+// probeRule is the per-rule oracle on the real code: for a supported rule, "some generated HNS rule
+// matches the packet" must equal "the proto rule matches the packet" (whatever the chunk size), on a
+// set of probe packets derived from the rule itself.
+func (s *state) probeRule(h *rt.H, op string, r *proto.Rule, inbound bool, rs []*hns.ACLPolicy) {
+	if !supported(r, inbound) {
+		return
+	}
+	ips := []uint32{parseDotted("10.0.0.5"), parseDotted("8.8.8.8"), parseDotted("10.0.1.77")}
+	add := func(a string) {
+		if strings.Contains(a, ":") {
+			return
+		}
+		if i := strings.Index(a, "/"); i >= 0 {
+			a = a[:i]
+		}
+		n := parseDotted(a)
+		ips = append(ips, n, n+1)
+	}
+	for _, l := range [][]string{r.SrcNet, r.DstNet} {
+		for _, a := range l {
+			add(a)
+		}
+	}
+	type pm struct {
+		proto, port int
+	}
+	var pms []pm
+	for _, ids := range [][]string{r.SrcIpSetIds, r.DstIpSetIds, r.DstIpPortSetIds} {
+		for _, id := range ids {
+			ms := s.cache.m[id]
+			for i, m := range ms {
+				if i > 5 && i < len(ms)-2 {
+					continue
+				}
+				if q := strings.Split(m, ","); len(q) == 2 {
+					add(q[0])
+					pp := strings.Split(q[1], ":")
+					port, _ := strconv.Atoi(pp[1])
+					pms = append(pms, pm{protoNum(pp[0]), port})
+				} else {
+					add(m)
+				}
+			}
+		}
+	}
+	ports := []int{0, 1000}
+	for _, l := range [][]*proto.PortRange{r.SrcPorts, r.DstPorts} {
+		for _, x := range l {
+			ports = append(ports, int(x.First), int(x.Last), int(x.Last)+1)
+		}
+	}
+	protos := []int{6, 17}
+	if r.Protocol != nil {
+		switch x := r.Protocol.NumberOrName.(type) {
+		case *proto.Protocol_Name:
+			protos = append(protos, protoNum(x.Name))
+		case *proto.Protocol_Number:
+			protos = append(protos, int(x.Number))
+		}
+	}
+	for _, m := range pms {
+		ports = append(ports, m.port)
+		protos = append(protos, m.proto)
+	}
+	if len(ips) > 14 {
+		ips = ips[:14]
+	}
+	if len(ports) > 8 {
+		ports = ports[:8]
+	}
+	n := 0
+	for _, pr := range protos {
+		for _, src := range ips {
+			for _, dst := range ips {
+				for _, sp := range ports {
+					for _, dp := range ports {
+						n++
+						if n%3 != 0 && len(ips)*len(ports) > 40 {
+							continue // thin out large probe sets deterministically
+						}
+						p := pkt{proto: pr, src: src, dst: dst, sport: sp, dport: dp}
+						hit := false
+						for _, x := range rs {
+							if hnsMatches(x, p) {
+								hit = true
+								break
+							}
+						}
+						if hit != s.refMatches(r, p) {
+							h.OracleFail("rule-match-mismatch", "a packet matches the generated HNS rules of ONE proto rule differently from the proto rule itself",
+								map[string]any{"op": op, "pkt": fmt.Sprintf("%d %s:%d -> %s:%d", pr, dotted(src), sp, dotted(dst), dp), "hns-any": hit, "rules": renderRules(rs)})
+							return
+						}
+					}
+				}
+			}
+		}
+	}
+	h.Count("rule:probe-oracle-checked")
+}
+
 // ---------------------------------------------------------------------------------------------
 
 func exec(h *rt.H, s *state, op string) string {
@@ -432,6 +559,7 @@ func exec(h *rt.H, s *state, op string) string {
 		s.ps = policysets.NewPolicySets(mockHNS{}, []policysets.IPSetCache{s.cache}, noStatic{})
 		s.pols = map[string]*proto.Policy{}
 		s.supp = map[string]bool{}
+		s.svcPlus = map[string]bool{}
 		return "ok"
 	case "ipset", "ipport":
 		s.cache.m[w[1]] = expandMembers(w[2])
@@ -440,14 +568,21 @@ func exec(h *rt.H, s *state, op string) string {
 		p := &proto.Policy{InboundRules: parseRules(w[2]), OutboundRules: parseRules(w[3])}
 		s.ps.AddOrReplacePolicySet(w[1], p)
 		s.pols[w[1]] = p
-		ok := true
+		ok, okPlus, plus := true, true, false
 		for _, r := range p.InboundRules {
 			ok = ok && supported(r, true)
+			okPlus = okPlus && supported(r, true)
 		}
 		for _, r := range p.OutboundRules {
 			ok = ok && supported(r, false)
+			if svcWithProto(r, false) {
+				plus = true
+			} else {
+				okPlus = okPlus && supported(r, false)
+			}
 		}
 		s.supp[w[1]] = ok
+		s.svcPlus[w[1]] = okPlus && plus
 		return "ok"
 	case "del":
 		s.ps.RemovePolicySet(w[1])
@@ -473,10 +608,13 @@ func exec(h *rt.H, s *state, op string) string {
 		acts := hnsActions(rules, p)
 		ref := s.tierVerdict(ids, inbound, eot, p)
 		h.Count("verdict:" + ref)
-		allSupp := true
+		allSupp, allSuppPlus := true, true
 		for _, id := range ids {
 			if s.pols[id] == nil || !s.supp[id] {
 				allSupp = false
+			}
+			if s.pols[id] == nil || !(s.supp[id] || s.svcPlus[id]) {
+				allSuppPlus = false
 			}
 		}
 		hv := "-"
@@ -484,6 +622,13 @@ func exec(h *rt.H, s *state, op string) string {
 			hv = strings.Join(acts, ",")
 		}
 		switch {
+		case !allSupp && allSuppPlus:
+			if len(acts) != 1 || acts[0] != ref {
+				h.OracleFail("service-rule-protocol-ignored", "egress rule on a destination Service that also carries a protocol / source ports: the generated HNS rules ignore them",
+					map[string]any{"op": op, "hns": acts, "policy": ref, "rules": renderRules(rules)})
+			} else {
+				h.Count("pkt:service-with-protocol-agrees")
+			}
 		case !allSupp:
 			h.Count("pkt:unsupported-or-missing(no-oracle)")
 		case len(acts) != 1:
@@ -500,6 +645,9 @@ func exec(h *rt.H, s *state, op string) string {
 		n, _ := strconv.Atoi(w[1])
 		rs, err := s.ps.VerifProtoRuleToHnsRules(w[3], parseRule(w[4]), w[2] == "in", n)
 		if err != nil {
+			if err != policysets.ErrNotSupported {
+				s.probeRule(h, op, parseRule(w[4]), w[2] == "in", nil)
+			}
 			switch err {
 			case policysets.ErrNotSupported:
 				return "err:notsupported"
@@ -513,6 +661,7 @@ func exec(h *rt.H, s *state, op string) string {
 		if len(rs) > 1 {
 			h.Count("rule:split")
 		}
+		s.probeRule(h, op, parseRule(w[4]), w[2] == "in", rs)
 		return renderRules(rs)
 	}
 	panic("unknown op " + op)
@@ -521,7 +670,14 @@ func exec(h *rt.H, s *state, op string) string {
 // ---------------------------------------------------------------------------------------------
 // generator
 
+type ippMember struct {
+	ip    string
+	proto int
+	port  int
+}
+
 type gen struct {
+	ippM   []ippMember
 	h      *rt.H
 	bad    bool
 	sets   []string
@@ -625,6 +781,12 @@ func (g *gen) rule(inbound bool) string {
 		if g.bad && g.h.Chance(0.3) {
 			f[2] = "ntcp"
 			f[8] = "80-80"
+		} else if g.h.Chance(0.25) {
+			// valid in the v3 API: protocol (and source ports) next to a destination Service
+			f[2] = rt.Pick(g.h, []string{"ntcp", "nudp"})
+			if g.h.Chance(0.3) {
+				f[7] = "1000-2000"
+			}
 		}
 		return strings.Join(f, ";")
 	}
@@ -677,7 +839,7 @@ func (g *gen) members(big bool) string {
 func genCase(h *rt.H) []string {
 	g := &gen{h: h, bad: h.Chance(0.25)}
 	ops := []string{"new"}
-	big := h.Tier == "thorough" && h.Chance(0.05) || h.Tier != "thorough" && h.Chance(0.01)
+	big := h.Tier == "thorough" && h.Chance(0.03) || h.Tier != "thorough" && h.Chance(0.004)
 	for i := 0; i < 1+h.Intn(3); i++ {
 		id := fmt.Sprintf("s%d", i)
 		g.sets = append(g.sets, id)
@@ -690,7 +852,10 @@ func genCase(h *rt.H) []string {
 		for j := 0; j < 1+h.Intn(4); j++ {
 			port := rt.Pick(h, []int{80, 443, 53})
 			g.pp = append(g.pp, port)
-			ms = append(ms, fmt.Sprintf("%s,%s:%d", dotted(0x0a000000+uint32(h.Intn(20))), rt.Pick(h, []string{"tcp", "udp", "tcp"}), port))
+			mip := dotted(0x0a000000 + uint32(h.Intn(20)))
+			mpr := rt.Pick(h, []string{"tcp", "udp", "tcp"})
+			g.ippM = append(g.ippM, ippMember{mip, protoNum(mpr), port})
+			ms = append(ms, fmt.Sprintf("%s,%s:%d", mip, mpr, port))
 		}
 		ops = append(ops, fmt.Sprintf("ipport %s %s", id, strings.Join(ms, "+")))
 	}
@@ -735,6 +900,16 @@ func genCase(h *rt.H) []string {
 					p = 65535
 				}
 				return p
+			}
+			if len(g.ippM) > 0 && h.Chance(0.3) {
+				// aim at a member of an IP-port set (a Service endpoint)
+				m := rt.Pick(h, g.ippM)
+				pr := m.proto
+				if h.Chance(0.2) {
+					pr = rt.Pick(h, []int{6, 17})
+				}
+				ops = append(ops, fmt.Sprintf("pkt out %s %s %d %s %d %s %d", rt.Pick(h, []string{"0", "1"}), ids, pr, ip(), rt.Pick(h, []int{1000, 1500, 3000}), m.ip, m.port))
+				continue
 			}
 			ops = append(ops, fmt.Sprintf("pkt %s %s %s %d %s %d %s %d", rt.Pick(h, []string{"in", "out"}), rt.Pick(h, []string{"0", "1"}), ids,
 				rt.Pick(h, []int{6, 6, 17, 132, 1}), ip(), port(), ip(), port()))
